@@ -163,7 +163,8 @@ Definition class_of_seq (v : val) : ctor :=
 
 (** [cf(items)] with [items] a list object; [None] = TypeError.  A namedtuple
     class called with one positional argument fails unless it has exactly one
-    field, in which case that field receives the whole list. *)
+    field, in which case that field receives the whole list (not reachable
+    through [rebuild_collection], which calls namedtuple classes with [*items]). *)
 Definition call1 (cf : ctor) (items : list val) : option val :=
   match cf with
   | CfList => Some (VL items)
@@ -183,12 +184,20 @@ Definition call_star (cf : ctor) (items : list val) : option val :=
 Definition is_tuple_class (cf : ctor) : bool :=
   match cf with CfTuple _ => true | _ => false end.
 
-(** [try: cf(items) / except TypeError: if not issubclass(cf, tuple): raise / cf( *items )] *)
-Definition build_seq (cf : ctor) (items : list val) : option val :=
-  match call1 cf items with
-  | Some r => Some r
-  | None => if is_tuple_class cf then call_star cf items else None
-  end.
+(** [issubclass(cf, tuple) and hasattr(cf, "_fields")] *)
+Definition is_namedtuple_class (cf : ctor) : bool :=
+  match cf with CfTuple (TkN _) => true | _ => false end.
+
+(** [_funcs._rebuild_collection(cf, items)]:
+    namedtuple classes get [cf( *items )]; otherwise
+    [try: cf(items) / except TypeError: if not issubclass(cf, tuple): raise / cf( *items )] *)
+Definition rebuild_collection (cf : ctor) (items : list val) : option val :=
+  if is_namedtuple_class cf then call_star cf items
+  else
+    match call1 cf items with
+    | Some r => Some r
+    | None => if is_tuple_class cf then call_star cf items else None
+    end.
 
 End Builtins.
 
@@ -251,41 +260,51 @@ Definition ser_value (ser : option ser_fn) (w : who) (v : val) : val :=
 Section Funcs.
 Variable E : env.
 
-(** ** [attr._funcs.asdict] — the body, with its two kinds of recursive calls
+(** ** [attr._funcs.asdict].
+
+    The loop body after the filter test, with the two kinds of recursive calls
     abstracted ([rec_inst v] = [asdict(v, recurse=True, ...same...)],
     [rec_any is_key v] = [_asdict_anything(v, is_key, ...same...)]). *)
+Definition asdict_field
+    (rec_inst : val -> option val) (rec_any : bool -> val -> option val)
+    (recurse retain : bool) (df : dkind) (ser : option ser_fn)
+    (c : nat) (f : field) (v : val) : option val :=
+  match ser_apply ser (Some (c, fst f)) v with      (* v = value_serializer(inst, a, v) *)
+  | Some r => Some r                                (* opaque: falls to [rv[a.name] = v] *)
+  | None =>
+      if recurse then
+        match v with
+        | VI _ _ => rec_inst v                                   (* has(v.__class__) *)
+        | VL xs | VT _ xs | VS xs | VF xs =>                     (* isinstance(v, (tuple, list, set, frozenset)) *)
+            let cf := if retain then class_of_seq v else CfList in
+            match seq_conv (rec_any false) xs with
+            | Some items => rebuild_collection E cf items
+            | None => None
+            end
+        | VD _ kvs =>                                            (* isinstance(v, dict) *)
+            match pairs_conv (rec_any true) (rec_any false) kvs with
+            | Some ps => mk_dict E df ps
+            | None => None
+            end
+        | _ => Some v
+        end
+      else Some v
+  end.
+
+(** [rv = dict_factory()] followed by the assignments [rv[name] = value]. *)
+Definition record (df : dkind) (assigns : list (string * val)) : val :=
+  VD df (dict_of_pairs (map (fun a => (VStr (fst a), snd a)) assigns)).
+
 Definition asdict_body
     (rec_inst : val -> option val) (rec_any : bool -> val -> option val)
     (recurse retain : bool) (flt : option filter_fn) (df : dkind) (ser : option ser_fn)
     (c : nat) (vs : list val) : option val :=
   match
     fields_loop (passes flt)                       (* if filter is not None and not filter(a, v): continue *)
-      (fun f v =>
-         match ser_apply ser (Some (c, fst f)) v with  (* v = value_serializer(inst, a, v) *)
-         | Some r => Some r                            (* opaque: falls to [rv[a.name] = v] *)
-         | None =>
-             if recurse then
-               match v with
-               | VI _ _ => rec_inst v                                   (* has(v.__class__) *)
-               | VL xs | VT _ xs | VS xs | VF xs =>                     (* isinstance(v, (tuple, list, set, frozenset)) *)
-                   let cf := if retain then class_of_seq v else CfList in
-                   match seq_conv (rec_any false) xs with
-                   | Some items => build_seq E cf items
-                   | None => None
-                   end
-               | VD _ kvs =>                                            (* isinstance(v, dict) *)
-                   match pairs_conv (rec_any true) (rec_any false) kvs with
-                   | Some ps => mk_dict E df ps
-                   | None => None
-                   end
-               | _ => Some v
-               end
-             else Some v
-         end)
+      (asdict_field rec_inst rec_any recurse retain df ser c)
       (fields_of E c) vs
   with
-  | Some assigns =>                                 (* rv = dict_factory(); rv[a.name] = ... *)
-      Some (VD df (dict_of_pairs (map (fun a => (VStr (fst a), snd a)) assigns)))
+  | Some assigns => Some (record df assigns)
   | None => None
   end.
 
@@ -300,8 +319,9 @@ Fixpoint asdict_anything (is_key retain : bool) (flt : option filter_fn) (df : d
   | VL xs | VT _ xs | VS xs | VF xs =>
       let cf := if retain then class_of_seq v
                 else if is_key then CfTuple TkT else CfList in
-      match seq_conv (asdict_anything false retain flt df ser) xs with
-      | Some items => build_seq E cf items
+      (* members of a key stay keys: [is_key=is_key] *)
+      match seq_conv (asdict_anything is_key retain flt df ser) xs with
+      | Some items => rebuild_collection E cf items
       | None => None
       end
   | VD _ kvs =>
@@ -334,39 +354,41 @@ Inductive tfk := TfTuple | TfList | TfSub.
 Definition apply_tf (tf : tfk) (rv : list val) : val :=
   match tf with TfTuple => VT TkT rv | TfList => VL rv | TfSub => VT TkS rv end.
 
-Fixpoint astuple (recurse retain : bool) (flt : option filter_fn) (tf : tfk)
+(** [astuple(j, ...) if has(j.__class__) else j] *)
+Definition astuple_member (rec : val -> option val) (j : val) : option val :=
+  match j with VI _ _ => rec j | _ => Some j end.
+
+(** The loop body after the filter test; [rec flt v] = [astuple(v, recurse=True,
+    filter=flt, ...same...)].  The calls in the dict branch pass neither
+    [filter] nor [recurse] (so: [None] and the default [True]). *)
+Definition astuple_field (rec : option filter_fn -> val -> option val)
+    (recurse retain : bool) (flt : option filter_fn) (v : val) : option val :=
+  if recurse then
+    match v with
+    | VI _ _ => rec flt v
+    | VL xs | VT _ xs | VS xs | VF xs =>
+        let cf := if retain then class_of_seq v else CfList in
+        match seq_conv (astuple_member (rec flt)) xs with
+        | Some items => rebuild_collection E cf items
+        | None => None
+        end
+    | VD k kvs =>
+        let df := if retain then k else DkD in
+        match pairs_conv (astuple_member (rec None)) (astuple_member (rec None)) kvs with
+        | Some ps => mk_dict E df ps
+        | None => None
+        end
+    | _ => Some v
+    end
+  else Some v.
+
+Fixpoint astuple_rec (retain : bool) (tf : tfk) (recurse : bool) (flt : option filter_fn)
     (inst : val) {struct inst} : option val :=
   match inst with
   | VI c vs =>
       match
         fields_loop (passes flt)
-          (fun f v =>
-             if recurse then
-               match v with
-               | VI _ _ => astuple true retain flt tf v
-               | VL xs | VT _ xs | VS xs | VF xs =>
-                   let cf := if retain then class_of_seq v else CfList in
-                   match seq_conv (fun j => match j with
-                                            | VI _ _ => astuple true retain flt tf j
-                                            | _ => Some j
-                                            end) xs with
-                   | Some items => build_seq E cf items
-                   | None => None
-                   end
-               | VD k kvs =>
-                   let df := if retain then k else DkD in
-                   (* the nested calls pass neither [filter] nor [recurse] *)
-                   let sub := fun j => match j with
-                                       | VI _ _ => astuple true retain None tf j
-                                       | _ => Some j
-                                       end in
-                   match pairs_conv sub sub kvs with
-                   | Some ps => mk_dict E df ps
-                   | None => None
-                   end
-               | _ => Some v
-               end
-             else Some v)
+          (fun _ v => astuple_field (astuple_rec retain tf true) recurse retain flt v)
           (fields_of E c) vs
       with
       | Some items => Some (apply_tf tf (map snd items))
@@ -374,6 +396,10 @@ Fixpoint astuple (recurse retain : bool) (flt : option filter_fn) (tf : tfk)
       end
   | _ => None
   end.
+
+Definition astuple (recurse retain : bool) (flt : option filter_fn) (tf : tfk)
+    (inst : val) : option val :=
+  astuple_rec retain tf recurse flt inst.
 
 (** ** [attr._next_gen.asdict / astuple] *)
 Definition ng_asdict (recurse : bool) (flt : option filter_fn) (ser : option ser_fn) (inst : val) :=
@@ -452,12 +478,10 @@ Definition asdict_spec (recurse retain : bool) (flt : option filter_fn) (df : dk
   | _ => None
   end.
 
-(** What [astuple] should return: the filter-passing field values, each
-    converted one level deep ([sub] handles direct members). *)
-Definition astuple_member_spec (rec : option filter_fn -> val -> option val)
-    (flt : option filter_fn) (j : val) : option val :=
-  if is_inst j then rec flt j else Some j.
-
+(** What [astuple] should return: the filter-passing field values in field
+    order, each converted one level deep (a nested instance by its own astuple;
+    direct members of a collection / keys and values of a dict likewise when they
+    are instances, otherwise left alone). *)
 Fixpoint astuple_spec (recurse retain : bool) (flt : option filter_fn) (tf : tfk)
     (inst : val) {struct inst} : option val :=
   match inst with
@@ -524,7 +548,7 @@ Definition construct (c : nat) (kws : list (val * val)) : option val :=
   else None.
 
 Definition roundtrip (c : nat) (vs : list val) : option val :=
-  match asdict false false None DkD None (VI c vs) with
+  match asdict true false None DkD None (VI c vs) with
   | Some (VD _ items) => construct c items
   | _ => None
   end.
